@@ -20,6 +20,8 @@ class _Replay(dict):
     def get(self, key, default=None):
         if key.startswith("ObjectRetrieval._retrieve_object_rec#"):
             return "h_retrieve.resolution_cases"
+        if key.startswith("_introspect_class#"):
+            return "h_class.base_class_cases"
         if key.startswith("_introspect_fun#signals:"):
             return "h_history.same_process_histories"
         if key.startswith("ObjectRetrieval.retrieve_object#"):
